@@ -166,6 +166,23 @@ def fold_primitives(ck: Checker, den: Denotations, R='C02.IDX', which=('emplace'
             if post['outputs'] != pre['outputs']:
                 extra.append('outputs changed')
         report('replace_inputs', f'(true={tt}, false={ff})', c, err, extra)
+    if 'replace_inputs' in which:
+        # the fixed input is itself an output (twice) and a block input: it must stay where it is
+        c = M.new_circuit(cm.BASE_SPEC, ('a', 'g4', 'a', 'g5'), cm.BASE_BLOCKS)
+        pre = cm.snapshot(c)
+        _, err = M.call(c, 'replace_inputs', ['a'], ['c'])
+        post = cm.snapshot(c)
+        extra = []
+        if not err:
+            if post['outputs'] != pre['outputs']:
+                extra.append(f'outputs changed from {pre["outputs"]} to {post["outputs"]} (a fixed input that is an output must stay an output)')
+            if post['blocks'] != pre['blocks']:
+                extra.append('blocks naming the fixed input were changed or dropped')
+            if post['users'] != pre['users']:
+                extra.append('users of the fixed input changed')
+            if post['gates'].get('a') != ('ALWAYS_TRUE', ()) or post['gates'].get('c') != ('ALWAYS_FALSE', ()):
+                extra.append('constants not installed')
+        report('replace_inputs', '(input that is an output and a block input)', c, err, extra)
     c = fresh()
     _, err = M.call(c, 'replace_inputs', ['g1'], []) if 'replace_inputs' in which else (None, None)
     if 'replace_inputs' in which:
@@ -362,9 +379,21 @@ def _replace_subcircuit_site(ck, R, m, node, what, cons):
     if rb and saved:
         save_line = min(n.lineno for n in ast.walk(fn) if isinstance(n, ast.Call) and norm(n) == 'copy_outputs_users[output_label].append(user)')
         order = save_line < rb[0].lineno < node.lineno
-    ck.check(saved and order, R, m, node,
-             'external users of replaced outputs are saved before the block is removed and restored after re-insertion',
-             'save/restore of external users around _remove_block not recognised', construct=cons)
+    restore_ok = False
+    for lp in ast.walk(fn):
+        if isinstance(lp, ast.For) and norm(lp.iter) == 'copy_outputs_users.items()' and isinstance(lp.target, ast.Tuple) and len(lp.body) == 1 and isinstance(lp.body[0], ast.If):
+            k, v = (norm(e) for e in lp.target.elts)
+            br = lp.body[0]
+            if norm(br.test) == f'{k} not in self._gate_to_users' and [norm(x) for x in br.body] == [f'self._gate_to_users[{k}] = {v}'] \
+                    and [norm(x) for x in br.orelse] == [f'self._gate_to_users[{k}].extend({v})']:
+                restore_ok = True
+        if isinstance(lp, ast.For) and norm(lp.iter) == 'copy_outputs_users.items()' and isinstance(lp.target, ast.Tuple) and len(lp.body) == 1 \
+                and norm(lp.body[0]) == f'self._gate_to_users.setdefault({norm(lp.target.elts[0])}, []).extend({norm(lp.target.elts[1])})':
+            restore_ok = True
+    ck.check(saved and order and restore_ok, R, m, node,
+             'external users of replaced outputs are saved before the block is removed and ADDED back after re-insertion (assigned when the entry is absent, appended when the new subcircuit already registered users)',
+             'save/restore of external users around _remove_block not recognised' if not (saved and order) else
+             'the saved external users are not appended when the re-inserted gate already has users inside the new subcircuit: they are dropped from the index', construct=cons)
 
 
 def _subcircuit_site(ck, R, m, node, what, cons):
